@@ -1,4 +1,4 @@
-import DFV.Lemmas.C14Persist
+import DFV.Lemmas.C14H5
 /-!
 # C14 — subregions stay inside, aligned with and measured in cells of their mesh
 -/
@@ -465,6 +465,69 @@ example : loadSubs { exM with subs := [] } (saveSubs exM) = .ok exM :=
   load_save_roundtrip exM { exM with subs := [] } exM_inv exM_subInv rfl rfl
 example : (match loadSubs { exM with region := { exM.region with pmin := [2/3, 0, 0], pmax := [26/3, 6, 2] }, subs := [] } (saveSubs exM) with
     | .ok _ => true | .error _ => false) = false := by decide +kernel
+
+/-- **… and the re-attached subregions satisfy `SubInv` on the receiving mesh**: the mesh
+`load_subregions` produces from the side-car of a mesh satisfying `SubInv` (VTK / OVF: the field
+file carries the geometry, the side-car the subregions) satisfies the mesh invariant and `SubInv`. -/
+theorem sidecar_roundtrip_subInv (m m0 : Mesh) (hm : m.Inv) (hs : SubInv m) (hr : m0.region = m.region) (hn : m0.n = m.n) :
+    ∃ g, loadSubs m0 (saveSubs m) = .ok g ∧ g.Inv ∧ SubInv g ∧ g.subs = m.subs ∧ g.region = m0.region ∧ g.n = m0.n :=
+  ⟨_, load_save' m m0 hm hs hr hn, meshInv_congr m _ hr hn hm, sidecar_subInv m m0 hs hr hn, rfl, rfl, rfl⟩
+
+/-! ## persistence: HDF5 (C10's model of `io/hdf5.py`, imported read-only) -/
+
+/-- **The mesh the HDF5 reader returns has the same values.**  `TMesh.loaded` — the mesh
+`DFV.C10.mesh_roundtrip` proves `meshLoad (meshSave m)` returns for every well-formed `m` — differs
+from `m` only in the dtype of the subregion corner arrays (they arrive in the dtype of the corner
+table, which is integer only if every stored corner array is: never a float-to-integer cast);
+region, counts, `bc`, subregion names, order and every corner VALUE are those of `m`. -/
+theorem hdf5_loaded_same_values (m : C10.TMesh) : meshOfT m.loaded = meshOfT m := meshOfT_loaded m
+
+/-- **Subregions read back from an HDF5 file satisfy `SubInv` on the loaded mesh**, with the same
+names in the same order and the same corners, region and counts. -/
+theorem hdf5_loaded_subInv (m : C10.TMesh) (hs : SubInv (meshOfT m)) :
+    SubInv (meshOfT m.loaded) ∧ (meshOfT m.loaded).subs = (meshOfT m).subs ∧
+    (meshOfT m.loaded).region = (meshOfT m).region ∧ (meshOfT m.loaded).n = (meshOfT m).n :=
+  h5_loaded_subInv' m hs
+
+/-- **Whatever an HDF5 file contains, loaded subregions went through the setter** of the mesh the
+reader builds: every candidate row passed the inside / whole-cell / lattice tests of that mesh, and
+every stored subregion is the candidate re-created with the mesh's dimension names, units and
+tolerance (corners ordered, names kept) — so a table that does not fit the stored geometry makes
+the load fail instead of attaching misfitting subregions. -/
+theorem hdf5_load_through_setter (h : C10.H5Mesh) (g : C10.TMesh) (hg : C10.meshLoad h = .ok g) :
+    ∃ cands : List (String × C10.TReg), C10.setSubs g.region g.n cands = .ok g.subs ∧
+      (∀ c ∈ cands, C10.subAccept g.region.toRegion g.n c.2.toRegion = true) ∧
+      List.Forall₂ (fun c p => p.1 = c.1 ∧ p.2.dims = g.region.dims ∧ p.2.units = g.region.units ∧
+          p.2.tol = g.region.tol ∧ p.2.pmin = C10.NumArr.minimum c.2.pmin c.2.pmax ∧
+          p.2.pmax = C10.NumArr.maximum c.2.pmin c.2.pmax) cands g.subs :=
+  h5_load_through_setter' h g hg
+
+/-- **C10's model of the subregion setter's tests and C14's are the same function**: inside the
+region, `Mesh(region=candidate, cell=mesh.cell)` exists, `is_aligned` with the absolute 1e-12 /
+relative 1e-5 tolerances — written independently for the two properties from the same code. -/
+theorem setter_models_agree (r : Region) (n : List Nat) (s : Region) :
+    C10.subAccept r n s = T.subOk { region := r, n := n, bc := "", subs := [] } s :=
+  subAccept_eq_subOk r n s
+
+/-- … so every candidate an HDF5 load attaches passed exactly the tests `subOk` of the loaded mesh
+that `set_accepts` / `set_rejects` / `set_accepts_exact` are about. -/
+theorem hdf5_load_passed_subOk (h : C10.H5Mesh) (g : C10.TMesh) (hg : C10.meshLoad h = .ok g) :
+    ∃ cands : List (String × C10.TReg), C10.setSubs g.region g.n cands = .ok g.subs ∧
+      ∀ c ∈ cands, T.subOk (meshOfT g) c.2.toRegion = true :=
+  h5_load_subOk h g hg
+
+/-- non-vacuity of the HDF5 theorems: `exT` is `exM` with integer region corners, one subregion with
+integer and one with float corner arrays; its values are `exM`, so `SubInv` holds; the corner table
+is float, so loading changes the dtype of subregion "a" (`loaded ≠ self`) but no value. -/
+example : exT.n = [4, 6, 1] := rfl
+example : meshOfT exT = exM := by decide +kernel
+example : SubInv (meshOfT exT) := by
+  have : meshOfT exT = exM := by decide +kernel
+  rw [this]; exact exM_subInv
+example : exT.loaded ≠ exT := by decide +kernel
+example : ∃ g, loadSubs { exM with subs := [] } (saveSubs exM) = .ok g ∧ SubInv g :=
+  let ⟨g, h1, _, h3, _⟩ := sidecar_roundtrip_subInv exM { exM with subs := [] } exM_inv exM_subInv rfl rfl
+  ⟨g, h1, h3⟩
 
 /-- non-vacuity: two concrete meshes offset by two cells are aligned; offset by half a cell they are not -/
 example : isAligned ⟨⟨[0, 0], [4, 2], ["x", "y"], ["m", "m"], 0⟩, [4, 2], "", []⟩
